@@ -232,6 +232,19 @@ def find_fn(toks, name, lo=0, hi=None, nth=0):
 
 def locate(toks, qual):
     """qual: `name`, `Type::name` or `Trait for Type::name`. Returns (fn_idx, open_idx, close_idx) or None."""
+    if qual.startswith("::"):
+        # `::name`: the free function at the top level of the file (not a method of the same name inside an impl)
+        name = qual[2:]
+        i = 0
+        while i < len(toks) - 1:
+            t = toks[i]
+            if t.kind == "punct" and t.text == "{":
+                i = match_close(toks, i) + 1
+                continue
+            if t.kind == "ident" and t.text == "fn" and toks[i + 1].kind == "ident" and toks[i + 1].text == name:
+                return find_fn(toks, name, i, len(toks))
+            i += 1
+        return None
     if "::" in qual:
         left, name = qual.rsplit("::", 1)
         trait = None
